@@ -116,10 +116,7 @@ func (e *Exec) namedVar(name string, w int) *smt.Term {
 	e.inputNames = append(e.inputNames, name)
 	e.inputW[name] = w
 	if e.concrete {
-		v, ok := e.inputs[name]
-		if !ok {
-			panic(pathEnd{endEngineBug, "concrete mode: no input named " + name})
-		}
+		v := e.inputs[name] // inputs the solver left unconstrained are absent: zero
 		if w == 0 {
 			return e.c.Bool(v != 0)
 		}
